@@ -40,7 +40,7 @@ CLAIMED.update({
  'C04': queue('TLC explores every interleaving (at the granularity of lock / send / receive / close) of small client programs on '
               'QueueImpl.tla and checks its invariants; an edge-covering set of those behaviours is forced onto real goroutines '
               'through yield hooks with the real state compared after every step; every invoke/return history recorded from the real '
-              'queue (forced schedules and free-running stress, also under the race detector) is judged by TLC against the '
+              'queue (forced schedules, the same programs running free, and free-running stress, also under the race detector) is judged by TLC against the '
               'linearizable bounded FIFO of QueueLin.tla.', 'DESIGN.md 4/C04',
               'TLA+ impl-level model (QueueImpl.tla) checked by TLC, schedule replay on real goroutines via hooks, TLC linearizability trace validation against QueueLin.tla'),
  'C05': queue('Same models and replays as C04; judged here: TLC checks NoStuck and Termination (weak fairness) on every program, every '
